@@ -1,4 +1,40 @@
 import PeptVerif.Model.Proto
-/-! driver for C19 (placeholder: replies bad-op to everything until the model is written) -/
-def step (_line : String) : String := "bad-op"
-def main : IO Unit := Proto.runDriver step
+import PeptVerif.Model.Annotation
+import PeptVerif.Model.Combinatoric
+/-! driver for C19: combinatorial expansions of an annotation, `split`, and the bare itertools models -/
+open Proto Pept Pept.Wire
+
+def parseSize? (s : String) : Option (Option Nat) :=
+  if s == "None" then some none else s.toNat?.map some
+
+def showAnns (l : List Annotation) : String := "~".intercalate (l.map showAnnotation)
+
+def showLists (l : List (List Int)) : String := ";".intercalate (l.map showIntList)
+
+def expand (f : Annotation → Option Nat → List Annotation) (a size : String) : String :=
+  match parseAnnotation? a, parseSize? size with
+  | some a, some k => if expandDomain a then showAnns (f a k) else "ERR:domain"
+  | _, _ => "bad-op"
+
+def iter (f : Nat → List Int → List (List Int)) (k l : String) : String :=
+  match k.toNat?, parseIntList? l with
+  | some k, some l => showLists (f k l)
+  | _, _ => "bad-op"
+
+def step (line : String) : String :=
+  match splitTab line with
+  | ["perm", a, k] => expand permutations a k
+  | ["prod", a, k] => expand product a k
+  | ["comb", a, k] => expand combinations a k
+  | ["cwr", a, k] => expand combinationsWithReplacement a k
+  | ["split", a] =>
+    match parseAnnotation? a with
+    | some a => if a.intervals.isSome then "ERR:domain" else showAnns (split a)
+    | none => "bad-op"
+  | ["it_perm", k, l] => iter permsK k l
+  | ["it_prod", k, l] => iter prodK k l
+  | ["it_comb", k, l] => iter combsK k l
+  | ["it_cwr", k, l] => iter cwrK k l
+  | _ => "bad-op"
+
+def main : IO Unit := runDriver step
